@@ -180,7 +180,26 @@ impl Host<ArtifactNamedImport> for RecHost {
         }
         let name = f.get_item_name().to_string();
         self.events.push(Event::HostCall { name: name.clone(), args: args.clone(), ticked: self.ticked, mem_len: memory.len() });
-        let r = self.model.call(&name, &args, memory).map_err(|_| anyhow::Error::new(HostTrap))?;
+        // (same reason: a declared type with fewer parameters than the model reads gets zero arguments)
+        let need = match name.as_str() {
+            "h_mix" | "h_poke" => 2,
+            "h_peek" | "h_trap" => 1,
+            _ => 0,
+        };
+        let mut margs = args.clone();
+        if margs.len() < need {
+            margs.resize(need, 0);
+        }
+        let r = self.model.call(&name, &margs, memory).map_err(|_| anyhow::Error::new(HostTrap))?;
+        // The host contract follows the import's *declared* type (the chain validates import types
+        // before it ever runs a module; this harness admits any import). A byte-mutated module may
+        // declare a known host name with another type: then the declared type wins, a missing result is 0
+        // and a surplus result is dropped. Generated modules always declare the model's types.
+        let r = match (ty.result, r) {
+            (Some(_), Some(v)) => Some(v),
+            (Some(_), None) => Some(0),
+            (None, _) => None,
+        };
         let ordinal = self.host_calls;
         self.host_calls += 1;
         if self.interrupt_at.contains(&ordinal) {
